@@ -1009,50 +1009,95 @@ def runEvent (f : Faults) (b : Blk) : List Prim → WSt → WSt
   | _ :: r, s => runEvent f b r s
 
 /-- (a) success path on a storage with faults `f`: after `super().event` returned, the wrapper saves exactly when
-    `persistent ∧ sync_state ∧ is_initialized()` (the repair 85849b6); the storage afterwards is the model's
-    `saveBlkF`, and an exception leaves `event()` iff that save lets one out -/
-theorem translated_persist_event_success_is_model (f : Faults) (s : Storage) (b : Blk) (ready : Bool) :
-    runEvent f b (eventActs false b.persistent ready b.sync b.dyn.inited (saveBlkF f s b).2) ⟨b.persistent, s, false⟩
-      = (if b.persistent && b.sync && b.dyn.inited then ⟨b.persistent, (saveBlkF f s b).1, (saveBlkF f s b).2⟩
+    it is the OUTERMOST `event()` of the block (`nested` = the flag `_persist_event_active` at entry; the repair
+    patches/C06-nested-event-saves-intermediate-state.diff) and `persistent ∧ sync_state ∧ is_initialized()` (the
+    repair 85849b6); the storage afterwards is the model's `saveBlkF`, and an exception leaves `event()` iff that
+    save lets one out -/
+theorem translated_persist_event_success_is_model (f : Faults) (s : Storage) (b : Blk) (ready nested : Bool) :
+    runEvent f b (eventActs false b.persistent ready b.sync b.dyn.inited (saveBlkF f s b).2 nested)
+        ⟨b.persistent, s, false⟩
+      = (if !nested && b.persistent && b.sync && b.dyn.inited
+         then ⟨b.persistent, (saveBlkF f s b).1, (saveBlkF f s b).2⟩
          else ⟨b.persistent, s, false⟩) := by
   have hsave := translated_persist_save_is_model f s b
   unfold eventActs
-  cases hp : b.persistent <;> cases hs : b.sync <;> cases hi : b.dyn.inited <;>
+  cases nested <;> cases hp : b.persistent <;> cases hs : b.sync <;> cases hi : b.dyn.inited <;>
     cases hx : (saveBlkF f s b).2 <;> simp_all [runEvent]
 
-/-- …on a working storage that is the model's `syncSave`, and the handler's result is returned -/
-theorem translated_persist_event_success_without_faults (s : Storage) (b : Blk) (ready : Bool) :
-    runEvent {} b (eventActs false b.persistent ready b.sync b.dyn.inited false) ⟨b.persistent, s, false⟩
-      = ⟨b.persistent, syncSave s b, false⟩ ∧
-    (eventActs false b.persistent ready b.sync b.dyn.inited false).head? = some .superEvent ∧
-    (eventActs false b.persistent ready b.sync b.dyn.inited false).getLast? = some .ret := by
-  have h := translated_persist_event_success_is_model {} s b ready
+/-- …on a working storage that is the model's `syncSaveN` (the outermost call: `syncSave`), and the handler's
+    result is returned -/
+theorem translated_persist_event_success_without_faults (s : Storage) (b : Blk) (ready nested : Bool) :
+    runEvent {} b (eventActs false b.persistent ready b.sync b.dyn.inited false nested) ⟨b.persistent, s, false⟩
+      = ⟨b.persistent, syncSaveN nested s b, false⟩ ∧
+    (eventActs false b.persistent ready b.sync b.dyn.inited false nested).head? = some .enter ∧
+    (eventActs false b.persistent ready b.sync b.dyn.inited false nested).getLast? = some .ret := by
+  have h := translated_persist_event_success_is_model {} s b ready nested
   rw [saveBlkF_nofault] at h
   refine ⟨?_, ?_, ?_⟩
-  · rw [h]; unfold syncSave; split <;> rfl
+  · rw [h]; unfold syncSaveN syncSave; cases nested <;> simp <;> split <;> rfl
   · unfold eventActs; simp
-  · unfold eventActs; cases b.persistent <;> cases b.sync <;> cases b.dyn.inited <;> simp
+  · unfold eventActs; cases nested <;> cases b.persistent <;> cases b.sync <;> cases b.dyn.inited <;> simp
 
 /-- (a) exception path: nothing is saved, persistence is switched off iff the block is persistent and the
     circuit is not ready (`persistent := persistent ∧ ready`, the model's rule), the exception is re-raised -/
 theorem translated_persist_event_failure_is_model (f : Faults) (s : Storage) (b : Blk)
-    (p ready sy ini sr : Bool) :
-    runEvent f b (eventActs true p ready sy ini sr) ⟨p, s, false⟩ = ⟨p && ready, s, false⟩ ∧
-    (eventActs true p ready sy ini sr).getLast? = some .reraise := by
+    (p ready sy ini sr nested : Bool) :
+    runEvent f b (eventActs true p ready sy ini sr nested) ⟨p, s, false⟩ = ⟨p && ready, s, false⟩ ∧
+    (eventActs true p ready sy ini sr nested).getLast? = some .reraise := by
   unfold eventActs
   cases p <;> cases ready <;> simp [runEvent]
+
+/-- the flag `_persist_event_active` along the action list: `enter` sets it, `leave` puts the entry value back -/
+def runFlag (nested : Bool) : List Prim → Bool → Bool
+  | [], a => a
+  | .enter :: r, _ => runFlag nested r true
+  | .leave :: r, _ => runFlag nested r nested
+  | _ :: r, a => runFlag nested r a
+
+/-- is the flag set whenever `super().event` is called (attempted)? -/
+def flagAtSuper (nested : Bool) : List Prim → Bool → Option Bool
+  | [], _ => none
+  | .enter :: r, _ => flagAtSuper nested r true
+  | .leave :: r, _ => flagAtSuper nested r nested
+  | .superEvent :: _, a => some a
+  | .fails .superEvent :: _, a => some a
+  | _ :: r, a => flagAtSuper nested r a
+
+/-- the nesting flag is sound: on every path (handler returned or raised, save done, failed or skipped) the flag
+    is set while `super().event` runs - so an `event()` the handler sends to its own block finds `nested = True` -
+    and has its entry value again when `event()` is left; a block no `event()` has entered yet has it cleared (the
+    class attribute).  Hence `nested` is true exactly in the calls made while another `event()` of the block is
+    active, whatever `_enable_event` does to `_event_active`. -/
+theorem translated_persist_event_flag_is_balanced (sr p ready sy ini svr nested : Bool) :
+    runFlag nested (eventActs sr p ready sy ini svr nested) nested = nested ∧
+    flagAtSuper nested (eventActs sr p ready sy ini svr nested) nested = some true ∧
+    eventFlagDefault = false := by
+  unfold eventActs eventFlagDefault
+  cases sr <;> cases p <;> cases ready <;> cases sy <;> cases ini <;> cases svr <;> cases nested <;>
+    simp [runFlag, flagAtSuper]
+
+/-- `nested_event_never_saves` at the level of the translated code: a nested call of the wrapper contains no
+    `save` action at all, whatever the handler, the flags and the storage do; the storage stays as it was -/
+theorem translated_persist_nested_event_never_saves (f : Faults) (b : Blk) (sr p ready sy ini svr : Bool)
+    (w : WSt) :
+    (eventActs sr p ready sy ini svr true).all (fun a => match a with
+      | .save => false | .fails .save => false | _ => true) = true ∧
+    (runEvent f b (eventActs sr p ready sy ini svr true) w).store = w.store := by
+  unfold eventActs
+  cases sr <;> cases p <;> cases ready <;> cases sy <;> cases ini <;> cases svr <;> simp [runEvent]
 
 /-- (a) the model's wrapper on a failing storage (`resave`, used by `Circ.eventF` / `Circ.fireF`) IS the
     translated wrapper: same storage, and `saveError` exactly when an exception leaves the translated `event()` -/
 theorem translated_persist_event_on_failing_storage_is_model (c c' : Circ) (f : Faults) (i : Nat) (v : Val)
     (b' : Blk) (hb' : c'.blocks[i]? = some b') (ready : Bool) :
     resave c c' f i v =
-      (let w := runEvent f b' (eventActs false b'.persistent ready b'.sync b'.dyn.inited (saveBlkF f c.store b').2)
+      (let w := runEvent f b' (eventActs false b'.persistent ready b'.sync b'.dyn.inited (saveBlkF f c.store b').2 false)
         ⟨b'.persistent, c.store, false⟩
        if b'.persistent && b'.sync && b'.dyn.inited then
          ({ c' with store := w.store }, if w.raised then .saveError else .res (.ret v))
        else (c', .res (.ret v))) := by
-  have h := translated_persist_event_success_is_model f c.store b' ready
+  have h := translated_persist_event_success_is_model f c.store b' ready false
+  simp only [Bool.not_false, Bool.true_and] at h
   unfold resave
   simp only [hb', h]
   cases hc : (b'.persistent && b'.sync && b'.dyn.inited)
@@ -1069,7 +1114,7 @@ theorem translated_persist_event_is_circ_event (c c' : Circ) (cal : Val → Opti
     (h : c.event cal i ev = some (c', r)) (hb : c.blocks[i]? = some b) (hb' : c'.blocks[i]? = some b')
     (hin : b'.dyn.inited = true) :
     runEvent {} b' (eventActs (match r with | .ret _ => false | _ => true) b.persistent c'.ready b.sync
-      b'.dyn.inited false) ⟨b.persistent, c.store, false⟩ = ⟨b'.persistent, c'.store, false⟩ := by
+      b'.dyn.inited false false) ⟨b.persistent, c.store, false⟩ = ⟨b'.persistent, c'.store, false⟩ := by
   have hlen : i < c.blocks.length := (List.getElem?_eq_some_iff.mp hb).1
   unfold Circ.event at h
   split at h
@@ -1084,16 +1129,16 @@ theorem translated_persist_event_is_circ_event (c c' : Circ) (cal : Val → Opti
       obtain ⟨rfl, rfl⟩ := h
       simp only [List.getElem?_set, hlen, if_true, Option.some.injEq] at hb'
       subst hb'
-      have h1 := fun rd => (translated_persist_event_success_without_faults c.store { b with dyn := d } rd).1
+      have h1 := fun rd => (translated_persist_event_success_without_faults c.store { b with dyn := d } rd false).1
       simp only at h1 hin
       rw [h1]
-      simp only [syncSave, hin, Bool.and_true]
+      simp only [syncSaveN, syncSave, hin, Bool.and_true, Bool.false_eq_true, if_false]
     | handlerError =>
       simp only [Option.some.injEq, Prod.mk.injEq] at h
       obtain ⟨rfl, rfl⟩ := h
       simp only [List.getElem?_set, hlen, if_true, Option.some.injEq] at hb'
       subst hb'
-      rw [(translated_persist_event_failure_is_model {} c.store _ b.persistent _ b.sync _ false).1]
+      rw [(translated_persist_event_failure_is_model {} c.store _ b.persistent _ b.sync _ false false).1]
       simp only [Circ.ready]
       cases hp : c.phase <;> simp
     | paramError =>
@@ -1101,14 +1146,14 @@ theorem translated_persist_event_is_circ_event (c c' : Circ) (cal : Val → Opti
       obtain ⟨rfl, rfl⟩ := h
       simp only [List.getElem?_set, hlen, if_true, Option.some.injEq] at hb'
       subst hb'
-      rw [(translated_persist_event_failure_is_model {} c.store _ b.persistent _ b.sync _ false).1]
+      rw [(translated_persist_event_failure_is_model {} c.store _ b.persistent _ b.sync _ false false).1]
       rfl
     | unknown =>
       simp only [Option.some.injEq, Prod.mk.injEq] at h
       obtain ⟨rfl, rfl⟩ := h
       simp only [List.getElem?_set, hlen, if_true, Option.some.injEq] at hb'
       subst hb'
-      rw [(translated_persist_event_failure_is_model {} c.store _ b.persistent _ b.sync _ false).1]
+      rw [(translated_persist_event_failure_is_model {} c.store _ b.persistent _ b.sync _ false false).1]
       rfl
 
 /-- the read of the stop time on a storage with faults -/
@@ -1358,10 +1403,10 @@ theorem translated_persist_init_refusal_comes_first (key : String) (p sy e : Val
     `save_persistent_state` nor by the event wrapper, on any storage -/
 theorem translated_persist_not_persistent_never_writes (key : String) (p sy e : Val) (a : PersistAttrs)
     (h : persistInit TimeUnits.timePeriod (.ok ()) key p sy e = .ok a) (hp : p.truthy = false)
-    (f : Faults) (b : Blk) (st : Option Entry) (g w r sr ready ini : Bool) (s : Storage) :
+    (f : Faults) (b : Blk) (st : Option Entry) (g w r sr ready ini nested : Bool) (s : Storage) :
     a.persistent = false ∧
     runSave key st (saveActs a.persistent g w r) (s, false) = (s, false) ∧
-    (runEvent f b (eventActs false a.persistent ready a.sync_state ini sr) ⟨a.persistent, s, false⟩).store = s := by
+    (runEvent f b (eventActs false a.persistent ready a.sync_state ini sr nested) ⟨a.persistent, s, false⟩).store = s := by
   have ha : a.persistent = false := by
     unfold persistInit at h
     cases ht : TimeUnits.timePeriod e with
